@@ -655,8 +655,10 @@ func Validate(f *File, ex Expect) []Problem {
 		p.add("pointer", "footer.summary_start %d, first summary record at %d", footer.SummaryStart, summary[0].Off)
 	}
 	if len(sumOffsets) == 0 {
-		if footer.SummaryOffsetStart != 0 && footer.SummaryOffsetStart != uint64(last.Off) {
-			p.add("pointer", "footer.summary_offset_start %d with no summary offset records (footer at %d)", footer.SummaryOffsetStart, last.Off)
+		// "If there are no Summary Offset records this value should be 0" (an earlier version of this
+		// validator also accepted the footer's own position, which is what the writer used to emit)
+		if footer.SummaryOffsetStart != 0 {
+			p.add("pointer", "footer.summary_offset_start %d with no summary offset records (footer at %d); the specification asks for 0", footer.SummaryOffsetStart, last.Off)
 		}
 	} else if footer.SummaryOffsetStart != uint64(sumOffsets[0].Off) {
 		p.add("pointer", "footer.summary_offset_start %d, first summary offset record at %d", footer.SummaryOffsetStart, sumOffsets[0].Off)
